@@ -125,6 +125,7 @@ type Gen struct {
 	fatal     []string
 	imprecise []string
 	debugNames map[*ssa.BasicBlock]map[string]ssa.Value
+	debugAddrs map[*ssa.BasicBlock]map[string]*ssa.Alloc
 	calls     []*callRecord
 	callCount map[string]int
 	allocs    map[ssa.Value]bool
@@ -476,6 +477,9 @@ func (g *Gen) addObl(st *BState, class, anchor, pos string, props []string, goal
 	}
 	o := &Obligation{Name: name, Class: class, Func: g.fname, Pos: pos, Props: props, PC: st.pc, Goal: goal, Src: src,
 		nAsserts: len(g.asserts), nDecls: len(g.decls), gen: g}
+	for _, k := range sortedKeys(st.inv) {
+		o.Extra = append(o.Extra, st.inv[k]) // package invariant instances known to hold here
+	}
 	if g.wantProps(props) {
 		g.obls = append(g.obls, o)
 	}
@@ -499,7 +503,7 @@ func NewGen(e *Engine, fn *ssa.Function, con *Contract, selectProps map[string]b
 		declSet: map[string]bool{}, regions: map[string]*Region{}, vals: map[ssa.Value]string{}, locs: map[ssa.Value]*Loc{},
 		tuples: map[ssa.Value][]string{}, in: map[*ssa.BasicBlock]*BState{}, out: map[*ssa.BasicBlock]*BState{},
 		strLits: map[string]string{}, loops: map[*ssa.BasicBlock]*loopInfo{}, backEdge: map[[2]int]bool{}, anchors: map[string]int{},
-		debugNames: map[*ssa.BasicBlock]map[string]ssa.Value{}, callCount: map[string]int{}, allocs: map[ssa.Value]bool{},
+		debugNames: map[*ssa.BasicBlock]map[string]ssa.Value{}, debugAddrs: map[*ssa.BasicBlock]map[string]*ssa.Alloc{}, callCount: map[string]int{}, allocs: map[ssa.Value]bool{},
 		selectProps: selectProps, rangeOf: map[ssa.Value]*ssa.Range{}, modTargets: map[string][]string{}, usedTrusted: map[string]bool{}}
 	return g
 }
@@ -642,6 +646,9 @@ func (g *Gen) Generate() {
 		for _, r := range g.con.Requires {
 			t := g.trBool(r.Expr, env, r)
 			g.assume(st, t)
+			if r.Assumed {
+				g.usedTrusted["assumption "+g.fname+"/"+r.Name+": "+r.Src] = true
+			}
 		}
 		// vacuity guard: preconditions satisfiable
 		if len(g.con.Requires) > 0 {
@@ -803,6 +810,21 @@ func (g *Gen) processBlock(b *ssa.BasicBlock) {
 					st.heap[k] = n
 				}
 			}
+			// a package invariant that holds at the end of every predecessor (over that predecessor's
+			// heap) holds over the joined heap, which coincides with one of them on every path
+			for _, gi := range g.pkgInvs(g.fn) {
+				all := true
+				for _, e := range edges {
+					po := g.out[e.p]
+					if po.inv[gi.Name] == "" || invSig(po.inv[gi.Name]) != invSig(g.invInstance(gi, g.fn, po.heap)) {
+						all = false
+						break
+					}
+				}
+				if all {
+					st.inv[gi.Name] = g.invInstance(gi, g.fn, st.heap)
+				}
+			}
 			for _, in := range b.Instrs {
 				if phi, ok := in.(*ssa.Phi); ok {
 					n := g.fresh("phi_"+phi.Name(), sortOf(phi.Type()))
@@ -887,6 +909,27 @@ func (g *Gen) loopEnv(li *loopInfo, heap Heap, phiVals map[*ssa.Phi]string) *Env
 						env.vars[n] = EnvVal{term: t, ty: VType{Go: v.Type()}}
 					}
 				}
+			}
+		}
+	}
+	for b, names := range g.debugAddrs {
+		if b != li.header && b.Dominates(li.header) {
+			for n, al := range names {
+				// an address-taken local is always named through its cell (`*name`), even if some block
+				// also has a DebugRef for a value loaded from it
+				ref, ok := g.vals[al]
+				if !ok {
+					continue
+				}
+				et := deref(al.Type())
+				if isStruct(et) {
+					env.vars[n] = EnvVal{term: ref, ty: VType{Go: al.Type()}}
+					continue
+				}
+				if _, isArr := et.Underlying().(*types.Array); isArr {
+					continue
+				}
+				env.vars[n] = EnvVal{term: "0", ty: VType{Go: al.Type()}, loc: &Loc{Kind: "cell", Region: g.cellRegion(et), Ref: ref, Type: et, Fresh: true}}
 			}
 		}
 	}
